@@ -3,4 +3,17 @@
 set -e
 cd "$(dirname "$0")"
 export CARGO_NET_OFFLINE=true
-/usr/bin/python3 vlib/build.py slicec vh
+/usr/bin/python3 vlib/build.py slicec vh vc
+# warm the sanitizer builds (the checks rebuild incrementally from /repo's working tree anyway)
+/usr/bin/python3 - <<'PY'
+import subprocess, sys
+sys.path.insert(0, ".")
+from vlib import build
+try:
+    print("asan:", build.build_vc_asan())
+    pre, env, cwd = build.miri_cmd()
+    w = subprocess.run(pre + ["warmup"], stdout=subprocess.PIPE, stderr=subprocess.PIPE, env=env, cwd=cwd)
+    print("miri warm-up:", "ok" if b"usage: vc" in w.stderr else w.stderr[-500:])
+except Exception as e:  # not fatal for setup: the checks report their own build problems as exit 2
+    print("sanitizer warm-up skipped:", e)
+PY
